@@ -1,8 +1,24 @@
-import Ypv.Drv.Codec
-/-! Driver handler for C09 (stub: replaced by the module that models C09) -/
+import Ypv.Drv.C04
+/-! Driver handler for C09 (creation of a missing straight-line path). -/
 namespace Ypv.Drv.C09
 open Lean (Json)
+open Ypv Ypv.Drv Ypv.Drv.C04
 
-def handle (_op : String) (_j : Json) : Except String Json := throw "C09: driver not implemented yet"
+/-- `{"op":"C09.create","doc":…,"segs":[["k","a"],["i",2]],"v":scalar,"fmt":"DEFAULT","mode":"get"|"set"}` -/
+def handle (op : String) (j : Json) : Except String Json := do
+  match op with
+  | "create" =>
+    let d ← docOf j
+    let segs ← psegsOf j "segs"
+    let v ← scalarOfJson (← j.getObjVal? "v")
+    let mode ← getStr j "mode"
+    if mode = "get" then
+      match getOrCreate d segs v with
+      | .ok r => pure (Json.mkObj [("ok", nodeToJson r.doc), ("addr", addrToJson r.addr)])
+      | .error e => pure (Json.mkObj [("err", errToJson e)])
+    else
+      let fmt ← fmtOfName (← getStr j "fmt")
+      pure (outToJson (setOrCreate d segs v fmt))
+  | _ => throw s!"C09: unknown op {op}"
 
 end Ypv.Drv.C09
